@@ -16,6 +16,9 @@ def main():
     results = json.load(open(res_path)) if os.path.exists(res_path) else {}
     for sid in ids:
         meta = json.load(open(os.path.join(root, sid, 'meta.json')))
+        if meta.get('obsolete'):
+            results[sid] = {'obsolete': meta['obsolete']}
+            print(sid, 'obsolete'); continue
         props = [meta['property']] + EXTRA.get(sid, [])
         repo = wt[0].split('=', 1)[1] if wt else '/repo'
         env = dict(os.environ, PMV_REPO=repo) if wt else dict(os.environ)
